@@ -243,10 +243,17 @@ def check_parameters(rec, an, sets, name="wyckoff_parameters_post"):
         p = np.array(exprs.evaluate(s.representative, {v: (vals[v] if vals[v] is not None else 0.0) for v in "xyz"}))
         cands = frac[np.asarray(s.indices)]
         if npbc == 2:
-            # the 2D conventional cell was re-centred/minimised along c after the analysis: compare in-plane + species only
-            d = cands[:, :2] - p[:2]
-            d -= np.round(d)
-            dist = np.linalg.norm(d @ cell[:2], axis=1).min()
+            # the 2D conventional cell was re-centred / minimised along the non-periodic axis (and that axis moved
+            # last) after the analysis: only the in-plane components are comparable, for one of the three possible
+            # positions of the non-periodic axis in the standard setting
+            dist = np.inf
+            for swap in (None, (0, 2), (1, 2)):
+                q = p.copy()
+                if swap:
+                    q[list(swap)] = q[list(swap)[::-1]]
+                d = cands[:, :2] - q[:2]
+                d -= np.round(d)
+                dist = min(dist, float(np.linalg.norm(d @ cell[:2], axis=1).min()))
         else:
             _, dist = _frac_match(cell, p, cands, tol)
         if dist > 2 * tol + 1e-6:
@@ -365,7 +372,15 @@ def bind_all():
                     no = int(self.get_space_group_number())
                 except Exception:
                     pass
-                rec.violation("wyckoff_parameters_post", "C08|exception|%s" % type(exc).__name__,
+                import re
+                mm = re.search(r"Wyckoff letter '(\w+)' in space group (\d+)", str(exc))
+                cellkey = "|%s%s" % (mm.group(2), mm.group(1)) if mm else ""
+                if int(np.sum(self._original_system.get_pbc())) == 2:
+                    # mechanism key: 2D input, parameters solved on the re-centred / minimised cell
+                    rec.violation("wyckoff_parameters_post", "C08|2D|exception|%s" % type(exc).__name__,
+                                  "get_wyckoff_sets_conventional(True) raised %r for a 2D input" % (exc,), _wit(self, group=no))
+                    return
+                rec.violation("wyckoff_parameters_post", "C08|exception|%s%s" % (type(exc).__name__, cellkey),
                               "get_wyckoff_sets_conventional(True) raised %r" % (exc,), _wit(self, group=no))
             return
         check_wyckoff_sets(rec, self, result)
